@@ -35,6 +35,10 @@ manifest = {
         {"name": "crash", "path": "harness/drivers/crash.rs", "serves_properties": ["C11"], "kind_free_text": "kill-point enumeration via disk snapshots before every mutation, recovery by the real build()"},
         {"name": "contra", "path": "harness/drivers/contra.rs", "serves_properties": ["C17"], "kind_free_text": "undeclared-input scenarios forcing re-execution"},
         {"name": "pair", "path": "harness/drivers/pair.rs", "serves_properties": ["C18"], "kind_free_text": "lock-step paired histories with/without the file-state table under two clock models"},
+        {"name": "ident", "path": "harness/drivers/ident.rs", "serves_properties": ["C13"], "kind_free_text": "near-miss rule pairs"},
+        {"name": "parse", "path": "harness/drivers/parse.rs", "serves_properties": ["C14"], "kind_free_text": "reference parser differential"},
+        {"name": "hash", "path": "harness/drivers/hashd.rs", "serves_properties": ["C15"], "kind_free_text": "hash/codec differential with hashlib offline oracle"},
+        {"name": "codec", "path": "harness/drivers/codec.rs", "serves_properties": ["C16"], "kind_free_text": "state-file round trip and damage injection"},
         {"name": "sort", "path": "harness/drivers/sortd.rs", "serves_properties": ["C12"], "kind_free_text": "exhaustive + random differential check of the sorter against a set-based reference"},
     ],
     "checks": checks,
